@@ -25,6 +25,8 @@
     marked_elements_are_xpath_matches real_positional_not_lawful real_positional_counts_per_closure
     once_on_trees stage_counts_matches late_registration_applies_from_there_on lazy_eq_eager_late
     select_is_path_select real_once_on_trees
+    xpath_spec_eq_marks_spec marks_are_xpath_matches_every_strategy real_template_rewrites_xpath_matches
+    xpath_criterion_is_nonpositional
 -/
 import Genshi.Lemmas.MatchSync
 import Genshi.Lemmas.MatchPipe
@@ -45,6 +47,7 @@ import Genshi.Lemmas.MatchOnceSpec
 import Genshi.Lemmas.MatchLate
 import Genshi.Lemmas.MatchSelect
 import Genshi.Lemmas.MatchRealOnce
+import Genshi.Lemmas.MatchXpInst
 import Genshi.Props.C05
 namespace Genshi.Props.C12
 open Genshi Genshi.Match
@@ -748,5 +751,119 @@ theorem real_once_on_trees (ns : NsMap) (vs : Vars) (ds : List Decl) (hok : ∀ 
 
 /-- non-vacuity: `a//c[@k]` fires once in `forestR` -/
 example : countList (dACk.real [] []) (dACk.real [] []).st [] forestR = 1 := by decide +kernel
+
+/-! ### the XPath form of the specification: every strategy, unions, whole forests -/
+
+open Genshi.Path in
+/-- **The two forms of the specification are one function.**  `xpForest ∘ patternSel` — replace the
+    element at LOCATION `loc` of a top-level tree iff the XPath reference semantics says that some
+    location path `s0/rest` of the match path, read as the pattern `descendant-or-self::s0/rest` from the
+    top of that tree, reaches it (`Ref.reach`) — is `mkKids ∘ patternMarks` — replace the element whose
+    START is the n-th EVENT iff the real matcher, run over the tree, answers `True` there.  For every
+    union of location paths under the strategy `Path.__init__` picks for each (or a forced one) that
+    satisfies the static criterion `PatternXp` (no position tests, no attribute axis, no leading `.`),
+    every body, both values of `recursive`, and every forest of leaves and clean element trees. -/
+theorem xpath_spec_eq_marks_spec (ns : NsMap) (vs : Vars) (force : Option Strategy) (paths : List LocPath)
+    (hp : ∀ p ∈ paths, PatternXp ns vs force p) (body : List BItem) (recursive : Bool) (forest : List Node)
+    (ht : ∀ top ∈ forest, TreeFor ns vs paths top) :
+    xpForest (patternSel paths ns (toXVars vs)) body recursive forest
+      = (mkKids body recursive forest (forest.flatMap (patternMarks paths ns vs force))).1 :=
+  (xpForest_eq_mkKids ns vs force paths body recursive forest
+    (fun top hm => topOk_of_static ns vs force paths hp top (ht top hm))).symm
+
+open Genshi.Path in
+/-- **marked_elements_are_xpath_matches for the default strategy of every path** (and unions).  On a clean
+    element tree the verdicts of `Path(text).test(ignore_context=True)` — SingleStepStrategy,
+    SimplePathStrategy or GenericStrategy per location path as `Path.__init__` chooses, `_multi` on top —
+    are exactly the marks of the XPath pattern relation: the event of the node at `loc` is answered `True`
+    iff `descendant-or-self::s0/rest` reaches `loc` for one of the location paths; END events are never
+    marked.  (C05 `pattern_matches_eq_xp`, `pattern_matches_eq_xp_fragments`; C17 `single_eq_generic` in
+    pattern mode; C05 `operands_run` for the union.) -/
+theorem marks_are_xpath_matches_every_strategy (ns : NsMap) (vs : Vars) (force : Option Strategy)
+    (paths : List LocPath) (hp : ∀ p ∈ paths, PatternXp ns vs force p)
+    (tag : QName) (attrs : AttrList) (kids : List Node) (ht : TreeFor ns vs paths (.elem tag attrs kids)) :
+    patternMarks paths ns vs force (.elem tag attrs kids)
+      = markB (patternSel paths ns (toXVars vs) (.elem tag attrs kids)) (eventLocs (.elem tag attrs kids) []) :=
+  patternMarks_eq_markB ns vs force _ paths
+    (fun p hpm => patOperand_of_static ns vs force p (hp p hpm) tag attrs kids ht.1 (ht.2 p hpm))
+
+open Genshi.Path in
+/-- the XPath criterion lies inside the position-test-free subset: `PatternXp` gives `Decl.ok` -/
+theorem xpath_criterion_is_nonpositional (ns : NsMap) (vs : Vars) (d : Decl)
+    (hp : ∀ p ∈ d.paths, PatternXp ns vs d.force p) : d.ok ns vs :=
+  pathsOk_of_patternOk ns vs d.paths d.force (fun p hpm => patternOk_of_patternXp ns vs d.force p (hp p hpm))
+
+open Genshi.Path in
+/-- **A match template replaces exactly the elements its path matches in the XPath sense.**  The stage of
+    the filter that owns declaration `d` (slot `i`, no `once`; the other declarations free of position
+    tests), on a forest of leaves and clean element trees: its output is the forest in which precisely the
+    elements reached by the XSLT-pattern reading of `d`'s path (`patternSel`: `Ref.reach` of
+    `descendant-or-self::s0/rest` inside the element's top-level tree, for one of the location paths of
+    the union) are replaced by the body — outermost first, inside a replaced element only when the
+    template is recursive — and everything else passes unchanged.  For the strategy `Path.__init__` picks
+    for every location path (SingleStep, SimplePath, Generic) as well as a forced one. -/
+theorem real_template_rewrites_xpath_matches (ns : NsMap) (vs : Vars) (ds : List Decl) (hok : ∀ d ∈ ds, d.ok ns vs)
+    (i : Nat) (d : Decl) (hd : ds[i]? = some d) (ho : d.hints.matchOnce = false)
+    (hp : ∀ p ∈ d.paths, PatternXp ns vs d.force p)
+    (f : Nat) (forest : List Node) (r : List (MT RSt) × List Event) (hns : okList forest = true)
+    (ht : ∀ top ∈ forest, TreeFor ns vs d.paths top)
+    (h : run f i (some (i + 1)) (evItems (flattenList forest)) (ds.map (Decl.real ns vs)) = some r) :
+    r.2 = xpForest (patternSel d.paths ns (toXVars vs)) d.body (!d.hints.notRecursive) forest := by
+  rw [(real_stage_is_marks ns vs ds hok i d hd ho f forest r hns h).2]
+  exact (xpath_spec_eq_marks_spec ns vs d.force d.paths hp d.body _ forest ht).symm
+
+section XpExamples
+open Genshi.Path
+
+/-- `a/b` as SimplePathStrategy sees it: one bound fragment -/
+def fragsAB : List Frag := [⟨[.localName false ['a'], .localName false ['b']], [0, 0], none, false⟩]
+
+theorem patternXp_dU : ∀ p ∈ dU.paths, PatternXp [] [] dU.force p := by
+  intro p hp
+  simp only [dU, List.mem_cons, List.not_mem_nil, or_false] at hp
+  rcases hp with rfl | rfl
+  · have hch : stratOf none [⟨.child, .localName false ['a'], []⟩, ⟨.child, .localName false ['b'], []⟩] = .simple := by
+      decide +kernel
+    unfold PatternXp
+    rw [show dU.force = none from rfl, hch]
+    exact ⟨fragsAB, Frags.fragsOk_of_B _ (by decide), by decide, by decide⟩
+  · have hch : stratOf none [⟨.child, .localName false ['c'], []⟩] = .single := by decide +kernel
+    unfold PatternXp
+    rw [show dU.force = none from rfl, hch]
+    refine ⟨_, rfl, by simp, ?_, ?_, ?_, ?_⟩ <;> intro s hs <;> simp only [List.mem_cons, List.not_mem_nil, or_false] at hs <;>
+      subst hs <;> simp [NodeTest.elemWf]
+
+theorem patternXp_dACk : ∀ p ∈ dACk.paths, PatternXp [] [] dACk.force p := by
+  intro p hp
+  simp only [dACk, List.mem_cons, List.not_mem_nil, or_false] at hp
+  subst hp
+  have hch : stratOf none pACk = .generic := by decide +kernel
+  unfold PatternXp
+  rw [show dACk.force = none from rfl, hch]
+  exact ⟨stepsOk_pACk, by decide⟩
+
+/-- the trees of `forestR` are clean, and `@k` can be evaluated on every node -/
+theorem treeFor_forestR : ∀ top ∈ forestR, TreeFor [] [] dACk.paths top := by
+  intro top ht
+  simp only [forestR, List.mem_cons, List.not_mem_nil, or_false] at ht
+  rcases ht with rfl | rfl <;> refine ⟨by decide, ?_⟩ <;> intro p hp <;>
+    simp only [dACk, List.mem_cons, List.not_mem_nil, or_false] at hp <;> subst hp <;>
+    simp [AllNodes, AllList, NodeFor, nodeOk, tagsOk, attrsOk, qnOk, pACk, Expr.absentFree, nodeEvent] <;> decide
+
+/-- the location form on `forestR`: the first `<c>` (inside `<a>`, with `k`) is replaced -/
+example : xpForest (patternSel dACk.paths [] (toXVars [])) dACk.body true forestR
+    = [S 'a', S 'b', S 'x', E 'x', .start ⟨[], ['c']⟩ [], E 'c', E 'b', E 'a',
+       .start ⟨[], ['c']⟩ [(⟨[], ['k']⟩, ['2'])], E 'c'] := by decide +kernel
+
+/-- … which is what `xpath_spec_eq_marks_spec` says the mark form gives -/
+example : xpForest (patternSel dACk.paths [] (toXVars [])) dACk.body true forestR
+    = (mkKids dACk.body true forestR (forestR.flatMap (patternMarks dACk.paths [] [] none))).1 :=
+  xpath_spec_eq_marks_spec [] [] none dACk.paths patternXp_dACk dACk.body true forestR treeFor_forestR
+
+/-- the union `a/b|c` (SimplePathStrategy | SingleStepStrategy) marks `<b>` under `<a>` and both `<c>` -/
+example : patternMarks dU.paths [] [] none (forestR.headD (.leaf (T 'u')))
+    = [false, true, true, false, true, false, false, false] := by decide +kernel
+
+end XpExamples
 
 end Genshi.Props.C12
